@@ -254,6 +254,10 @@ func genHist(r *lib.Rng, id int64, tier string, withSaves bool) Case {
 					pool = append(pool, o)
 					c.Ops = append(c.Ops, o)
 				}
+				if r.Chance(1, 4) {
+					// a stretch of history made by dastard's own SourceControl just before the save
+					c.Ops = append(c.Ops, Op{Op: "SRC", N: int64(r.Intn(3) / 2)})
+				}
 				if r.Chance(1, 3) {
 					c.Ops = append(c.Ops, Op{Op: "SAQ"}) // waits for the save, too
 				} else {
@@ -276,6 +280,8 @@ func genHist(r *lib.Rng, id int64, tier string, withSaves bool) Case {
 func genDirect(r *lib.Rng, id int64, tier string) Case {
 	c := Case{ID: id, Mode: "direct", Dir: randomDir(r)}
 	switch r.Intn(12) {
+	case 4, 5:
+		c.Dir.MainSymlink = true
 	case 0, 1:
 		c.Dir.MainMissing = true
 	case 2:
@@ -369,6 +375,18 @@ func corpus() []Case {
 			{Op: "U", Tag: "LANCERO", Typed: true, Val: raw(dastard.LanceroSourceConfig{CardDelay: []int{}, ActiveCards: []int{},
 				DastardOutput: dastard.LanceroDastardOutputJSON{AvailableCards: []int{}}})},
 			{Op: "S"}, {Op: "R"}}},
+		// three runs: the first stores trigger settings, the second publishes nothing about them (no source is
+		// started), the third must still find them
+		{Mode: "direct", Ops: []Op{
+			{Op: "U", Tag: "TRIGGER", Typed: true, Val: typedValue(r, "TRIGGER")}, {Op: "U", Tag: "STATELABEL", Val: raw("run1")}, {Op: "S"}, {Op: "K", N: 5},
+			{Op: "U", Tag: "STATUS", Typed: true, Val: st(1000, 250)}, {Op: "S"}, {Op: "K", N: 5},
+			{Op: "S"}, {Op: "R"}}},
+		// the configuration file is a symbolic link into another directory
+		{Mode: "direct", Dir: dirSpec{Init: map[string]OpVal{"STATELABEL": {Val: raw("old")}}, MainSymlink: true},
+			Ops: []Op{{Op: "U", Tag: "STATELABEL", Val: raw("new")}, {Op: "S"}, {Op: "U", Tag: "MIX", Val: raw(3)}, {Op: "S"}, {Op: "R"}}},
+		// a source started, writing started under a base path, the source stopped while writing; the delayed
+		// save; a second dastard must come up with that base path (then the same with WriteControl Stop first)
+		{Mode: "hist", Ops: []Op{{Op: "SRC"}, {Op: "W"}, {Op: "R"}, {Op: "SA"}, {Op: "SRC", N: 1}, {Op: "W"}, {Op: "R"}, {Op: "SA"}}},
 		// SendAllStatus through the real RPC method while the updater is busy saving and its queue is full
 		{Mode: "hist", Ops: append(append(all(), Op{Op: "U", Tag: "ALIVE", Val: raw(7)}, Op{Op: "SAQ"}),
 			Op{Op: "U", Tag: "STATELABEL", Val: raw("after")}, Op{Op: "SAQ"}, Op{Op: "SA"})},
